@@ -3,9 +3,11 @@ import LeptosModel.Model.Action
 # C17 — action state reflects its dispatch history under any completion order
 
 All theorems are about `run (init v0) evs` for an ARBITRARY event list `evs` (any interleaving of
-`dispatch`, `abort`, `dropHandle`, `ready`, `poll j c`, `clear`: every history, every completion
-order, every executor polling order, every outcome of the unbiased `select!`), proved as
-invariants: `Inv (init v0)`, `Inv s → Inv (step s e)`, lifted by induction over the list.
+`dispatch`, `abort`, `dropHandle`, `ready`, `poll j`, `clear`: every history, every completion
+order, every executor polling order), proved as invariants: `Inv (init v0)`,
+`Inv s → Inv (step s e)`, lifted by induction over the list.  The model is the code AFTER the repair
+of F-C17-1 (`select_biased!`, abort arm first); the unbiased `select!` of the old code survives as
+`pollTaskOld`/`runOld` with the abort-race witness as a regression theorem (bottom of the file).
 
 "dispatch `k` completed" := the future's arm of task `k` ran (`outcome = completed v`);
 "abort processed" := the abort arm ran (`outcome = aborted`).
@@ -363,7 +365,7 @@ theorem Inv.futArm {s : State} (h : Inv s) (id : Nat) (t : Task) (v : Val)
     · cases hm'
       exact ⟨g t, by simp [ht], rfl⟩
 
-theorem Inv.pollTask {s : State} (h : Inv s) (id : Nat) (c : Bool) : Inv (pollTask s id c) := by
+theorem Inv.pollTask {s : State} (h : Inv s) (id : Nat) : Inv (pollTask s id) := by
   unfold Action.pollTask
   split
   · exact h
@@ -373,22 +375,19 @@ theorem Inv.pollTask {s : State} (h : Inv s) (id : Nat) (c : Bool) : Inv (pollTa
     · next hd =>
       have hd : t.done = false := by simpa using hd
       split
-      · next v hf _ =>
-        split
-        · exact h.futArm id t v ht hd hf
-        · exact h.abortArm id t ht hd
-      · next v hf _ => exact h.futArm id t v ht hd hf
       · exact h.abortArm id t ht hd
-      · next hf hc =>
-        apply h.modifyTasks
-        intro t' ht'
-        rw [ht] at ht'; cases ht'
-        refine ⟨rfl, fun ok => ⟨ok.latest, ok.doneIff, ?_, ok.futOf⟩⟩
-        intro _ hor
-        simp at hc
-        rcases hor with hor | hor
-        · exact absurd hf hor
-        · exact absurd hor hc
+      · next hc =>
+        split
+        · next v hf => exact h.futArm id t v ht hd hf
+        · next hf =>
+          apply h.modifyTasks
+          intro t' ht'
+          rw [ht] at ht'; cases ht'
+          refine ⟨rfl, fun ok => ⟨ok.latest, ok.doneIff, ?_, ok.futOf⟩⟩
+          intro _ hor
+          rcases hor with hor | hor
+          · exact absurd hf hor
+          · exact absurd hor hc
 
 theorem Inv.step {s : State} (h : Inv s) (e : Event) : Inv (step s e) := by
   cases e with
@@ -396,13 +395,13 @@ theorem Inv.step {s : State} (h : Inv s) (e : Event) : Inv (step s e) := by
   | abort k => exact h.abort k
   | dropHandle k => exact h.drop k
   | ready k v => exact h.ready k v
-  | poll j c =>
+  | poll j =>
     show Inv (match (readyList s)[j % (readyList s).length]? with
       | none => s
-      | some id => Action.pollTask s id c)
+      | some id => Action.pollTask s id)
     split
     · exact h
-    · exact h.pollTask _ c
+    · exact h.pollTask _
   | clear => exact h.clear
 
 theorem Inv.run {s : State} (h : Inv s) (evs : List Event) : Inv (run s evs) := by
@@ -415,20 +414,30 @@ theorem inv_run (v0 : Option Val) (evs : List Event) : Inv (run (init v0) evs) :
 
 /-! ## ghost bookkeeping is what it says -/
 
+theorem initVal_clearInput (s : State) : (clearInputIfIdle s).initVal = s.initVal := by
+  unfold clearInputIfIdle; split <;> rfl
+
+theorem initVal_pollTask (s : State) (id : Nat) : (Action.pollTask s id).initVal = s.initVal := by
+  unfold Action.pollTask
+  split
+  · rfl
+  · split
+    · rfl
+    · split
+      · simp [Action.abortArm, initVal_clearInput]
+      · split
+        · simp only [Action.futArm, initVal_clearInput]
+        · rfl
+
 theorem initVal_step (s : State) (e : Event) : (step s e).initVal = s.initVal := by
   cases e with
-  | poll j c =>
+  | poll j =>
     show (match (readyList s)[j % (readyList s).length]? with
       | none => s
-      | some id => Action.pollTask s id c).initVal = _
+      | some id => Action.pollTask s id).initVal = _
     split
     · rfl
-    · unfold Action.pollTask
-      split
-      · rfl
-      · split
-        · rfl
-        · split <;> (try split) <;> simp [Action.futArm, Action.abortArm, clearInputIfIdle] <;> split <;> rfl
+    · exact initVal_pollTask s _
   | _ => rfl
 
 theorem initVal_run (s : State) (evs : List Event) : (run s evs).initVal = s.initVal := by
@@ -546,40 +555,6 @@ theorem C17_input_latest_while_pending (v0 : Option Val) (evs : List Event)
 
 /-! ## abort before ready -/
 
-/-- does this event poll a task whose `abort()` came before its result, with both now available,
-and let the future's arm win? (possible because `select!` is unbiased) -/
-def futWinsRace (s : State) : Event → Bool
-  | .poll j true =>
-    match (readyList s)[j % (readyList s).length]? with
-    | none => false
-    | some id =>
-      match s.tasks[id]? with
-      | none => false
-      | some t => !t.done && t.abortFirst && decide (t.chan = .fired) && decide (t.fut ≠ .pending)
-  | _ => false
-
-/-- decidable hypothesis of the partial theorem; its negation is the known-finding class `abort-race` -/
-def raceFree : State → List Event → Bool
-  | _, [] => true
-  | s, e :: es => !futWinsRace s e && raceFree (step s e) es
-
-/-- **full statement**: a dispatch whose `abort()` was called while its future was still pending never
-writes `value`/`version`, whatever happens afterwards -/
-def C17_abort_before_ready_never_writes_full : Prop :=
-  ∀ (v0 : Option Val) (evs : List Event), abortRaceLost (run (init v0) evs) = false
-
-/-- false of the code (F-C17-1): `dispatch; abort 0; ready 0 7; poll` with the unbiased `select!` looking at
-the future first writes value 7 and bumps the version although the abort was requested first -/
-theorem C17_abort_race_witness :
-    let s := run (init none) [.dispatch 1, .abort 0, .ready 0 7, .poll 0 true]
-    abortRaceLost s = true ∧ s.value = some 7 ∧ s.version = 1 ∧ s.pending = false := by
-  decide
-
-theorem C17_abort_before_ready_never_writes_full_false : ¬ C17_abort_before_ready_never_writes_full := by
-  intro h
-  have := h none [.dispatch 1, .abort 0, .ready 0 7, .poll 0 true]
-  revert this; decide
-
 def AbortOK (t : Task) : Prop :=
   t.abortFirst = true → t.completed = false ∧ (t.done = false → t.chan = .fired)
 
@@ -592,8 +567,8 @@ theorem abortOK_clearInput {s : State} {P : Task → Prop} (h : ∀ t ∈ s.task
     ∀ t ∈ (clearInputIfIdle s).tasks, P t := by
   unfold clearInputIfIdle; split <;> exact h
 
-theorem abortOK_step {s : State} (hi : Inv s) (hj : ∀ t ∈ s.tasks, AbortOK t) (e : Event)
-    (hr : futWinsRace s e = false) : ∀ t ∈ (step s e).tasks, AbortOK t := by
+theorem abortOK_step {s : State} (hi : Inv s) (hj : ∀ t ∈ s.tasks, AbortOK t) (e : Event) :
+    ∀ t ∈ (step s e).tasks, AbortOK t := by
   cases e with
   | dispatch i =>
     intro t ht
@@ -639,10 +614,10 @@ theorem abortOK_step {s : State} (hi : Inv s) (hj : ∀ t ∈ s.tasks, AbortOK t
       · exact ok
       · exact ok
   | clear => exact hj
-  | poll j c =>
+  | poll j =>
     show ∀ t ∈ (match (readyList s)[j % (readyList s).length]? with
       | none => s
-      | some id => Action.pollTask s id c).tasks, AbortOK t
+      | some id => Action.pollTask s id).tasks, AbortOK t
     split
     · exact hj
     · next id hid =>
@@ -655,63 +630,45 @@ theorem abortOK_step {s : State} (hi : Inv s) (hj : ∀ t ∈ s.tasks, AbortOK t
         · next hd =>
           have hd : t.done = false := by simpa using hd
           have ok := hj t (mem_of_getElem? ht)
-          -- the future's arm only runs for a task that is not `abortFirst`
-          have fut_ok : ∀ v, t.abortFirst = false →
-              ∀ x ∈ (Action.futArm s id t v).tasks, AbortOK x := by
-            intro v hab
-            apply abortOK_clearInput
-            apply abortOK_modify hj
-            intro t' ht' _
-            rw [ht] at ht'; cases ht'
-            intro ha
-            have : t.abortFirst = true := ha
-            rw [hab] at this; cases this
-          have abort_ok : ∀ x ∈ (Action.abortArm s id).tasks, AbortOK x := by
+          split
+          · -- the abort arm
             apply abortOK_clearInput
             apply abortOK_modify hj
             intro t' _ _ _
             exact ⟨by simp [Task.completed], fun h => by simp at h⟩
-          split
-          · next v hf hc =>
-            split
-            · next hcc =>
-              subst hcc
-              apply fut_ok
-              simp only [futWinsRace, hid, ht] at hr
-              simp at hc
+          · next hc =>
+            -- the abort arm is not ready, so the task is not `abortFirst`
+            have hab : t.abortFirst = false := by
               cases hab : t.abortFirst
               · rfl
-              · simp [hd, hab, hc, hf] at hr
-            · exact abort_ok
-          · next v hf hc =>
-            apply fut_ok
-            cases hab : t.abortFirst
-            · rfl
-            · have := (ok hab).2 hd
-              simp [this] at hc
-          · exact abort_ok
-          · apply abortOK_modify hj
-            intro t' ht' ok'
-            exact ok'
+              · exact absurd ((ok hab).2 hd) hc
+            split
+            · apply abortOK_clearInput
+              apply abortOK_modify hj
+              intro t' ht' _
+              rw [ht] at ht'; cases ht'
+              intro ha
+              have : t.abortFirst = true := ha
+              rw [hab] at this; cases this
+            · apply abortOK_modify hj
+              intro t' ht' ok'
+              exact ok'
 
-theorem abortOK_run {s : State} (hi : Inv s) (hj : ∀ t ∈ s.tasks, AbortOK t) (evs : List Event)
-    (hr : raceFree s evs = true) : ∀ t ∈ (run s evs).tasks, AbortOK t := by
+theorem abortOK_run {s : State} (hi : Inv s) (hj : ∀ t ∈ s.tasks, AbortOK t) (evs : List Event) :
+    ∀ t ∈ (run s evs).tasks, AbortOK t := by
   induction evs generalizing s with
   | nil => exact hj
-  | cons e es ih =>
-    simp only [raceFree, Bool.and_eq_true, Bool.not_eq_true'] at hr
-    exact ih (hi.step e) (abortOK_step hi hj e hr.1) hr.2
+  | cons e es ih => exact ih (hi.step e) (abortOK_step hi hj e)
 
-/-- **partial**: on every history in which the unbiased `select!` never lets the future's arm win
-against an abort that was requested first (`raceFree`; in particular every history where no poll
-finds both available, and every history under a biased select), a dispatch whose `abort()` preceded
-its future's completion never writes: it is not completed and the write log has no entry for it -/
-theorem C17_abort_before_ready_never_writes_partial (v0 : Option Val) (evs : List Event)
-    (hr : raceFree (init v0) evs = true) :
+/-- **abort before ready never writes** (FULL, about the repaired code): on every history and
+schedule, a dispatch whose `abort()` was called while its future was still pending never writes
+`value`/`version`, whatever happens afterwards (in particular when its future becomes ready before
+the task is polled): it is never completed and the write log has no entry for it -/
+theorem C17_abort_before_ready_never_writes (v0 : Option Val) (evs : List Event) :
     abortRaceLost (run (init v0) evs) = false ∧
     ∀ (k : Nat) (t : Task), (run (init v0) evs).tasks[k]? = some t → t.abortFirst = true →
       (∀ v, t.outcome ≠ .completed v) ∧ ∀ v, Write.completed k v ∉ (run (init v0) evs).log := by
-  have hj := abortOK_run (Inv.init v0) (by simp [Action.init]) evs hr
+  have hj := abortOK_run (Inv.init v0) (by simp [Action.init]) evs
   have hi := inv_run v0 evs
   constructor
   · simp only [abortRaceLost, Bool.eq_false_iff, ne_eq, List.any_eq_true, not_exists, not_and]
@@ -728,21 +685,11 @@ theorem C17_abort_before_ready_never_writes_partial (v0 : Option Val) (evs : Lis
     rw [hk] at ht'; cases ht'
     exact hne v ho
 
-/-- under a biased select (the abort arm first: no `poll _ true` event) every history is race-free -/
-theorem raceFree_of_biased (s : State) (evs : List Event) (h : ∀ j, Event.poll j true ∉ evs) :
-    raceFree s evs = true := by
-  induction evs generalizing s with
-  | nil => rfl
-  | cons e es ih =>
-    simp only [raceFree, Bool.and_eq_true, Bool.not_eq_true']
-    constructor
-    · cases e with
-      | poll j c =>
-        cases c with
-        | false => rfl
-        | true => exact absurd (by simp) (h j)
-      | _ => rfl
-    · exact ih _ fun j hm => h j (by simp [hm])
+/-- … and any abort that is visible when the task is polled wins, also one that came after the
+result: a live task whose channel is fired is finished by the abort arm at its next poll -/
+theorem C17_visible_abort_wins (s : State) (id : Nat) (t : Task) (ht : s.tasks[id]? = some t)
+    (hd : t.done = false) (hc : t.chan = .fired) : pollTask s id = abortArm s id := by
+  simp [Action.pollTask, ht, hd, hc]
 
 /-- what sets `abortFirst`: `abort k` on a live task whose handle is still armed and whose future is
 still pending (and it fires the channel) -/
@@ -1071,15 +1018,15 @@ theorem C17_multi_version (evs : List M.Event) :
 
 /-! ## the driver's `idle` op is a list of poll events (so every theorem applies to driver states) -/
 
-theorem runIdle_is_run (c : Bool) (n : Nat) (s : State) : ∃ evs, runIdle c n s = run s evs := by
+theorem runIdle_is_run (n : Nat) (s : State) : ∃ evs, runIdle n s = run s evs := by
   induction n generalizing s with
   | zero => exact ⟨[], rfl⟩
   | succ n ih =>
     simp only [runIdle]
     split
     · exact ⟨[], rfl⟩
-    · obtain ⟨evs, h⟩ := ih (pollStep s 0 c)
-      exact ⟨.poll 0 c :: evs, h⟩
+    · obtain ⟨evs, h⟩ := ih (pollStep s 0)
+      exact ⟨.poll 0 :: evs, h⟩
 
 theorem M.runIdle_is_run (n : Nat) (s : M.State) : ∃ evs, M.runIdle n s = M.run s evs := by
   induction n generalizing s with
@@ -1091,12 +1038,51 @@ theorem M.runIdle_is_run (n : Nat) (s : M.State) : ∃ evs, M.runIdle n s = M.ru
     · obtain ⟨evs, h⟩ := ih (M.pollStep s 0)
       exact ⟨.poll 0 :: evs, h⟩
 
+/-! ## regression: what the code did before the repair (F-C17-1) -/
+
+/-- the old code with the shuffle putting the abort arm first is the repaired code -/
+theorem pollTaskOld_abort_first (s : State) (id : Nat) : pollTaskOld s id false = pollTask s id := by
+  unfold pollTaskOld Action.pollTask
+  split
+  · rfl
+  · next t _ =>
+    split
+    · rfl
+    · by_cases hc : t.chan = .fired
+      · cases hf : t.fut <;> simp [hc]
+      · cases hf : t.fut <;> simp [hc]
+
+theorem stepOld_abort_first (s : State) (e : Event) : stepOld s e false = step s e := by
+  cases e with
+  | poll j =>
+    show pollStepOld s j false = pollStep s j
+    unfold pollStepOld pollStep
+    simp only [pollTaskOld_abort_first]
+  | _ => rfl
+
+/-- F-C17-1 (repaired): `dispatch; abort 0; ready 0 7; poll` — with the unbiased `select!` looking at
+the future first the old code wrote value 7 and bumped the version although the abort was requested
+first; the repaired code discards the late result -/
+theorem C17_abort_race_witness :
+    let old := runOld (init none) [(.dispatch 1, false), (.abort 0, false), (.ready 0 7, false), (.poll 0, true)]
+    let new := run (init none) [.dispatch 1, .abort 0, .ready 0 7, .poll 0]
+    (abortRaceLost old = true ∧ old.value = some 7 ∧ old.version = 1 ∧ old.pending = false) ∧
+    (abortRaceLost new = false ∧ new.value = none ∧ new.version = 0 ∧ new.pending = false) := by
+  decide
+
+/-- the full statement was false of the old code -/
+theorem C17_abort_before_ready_never_writes_old_false :
+    ¬ ∀ (v0 : Option Val) (evs : List (Event × Bool)), abortRaceLost (runOld (init v0) evs) = false := by
+  intro h
+  have := h none [(.dispatch 1, false), (.abort 0, false), (.ready 0 7, false), (.poll 0, true)]
+  revert this; decide
+
 /-! ## non-vacuity -/
 
 /-- three overlapping dispatches, all parked, the middle one aborted, the others completing out of order -/
 def exHistory : List Event :=
-  [.dispatch 10, .dispatch 11, .dispatch 12, .poll 0 false, .poll 0 false, .poll 0 false,
-   .abort 1, .ready 2 102, .poll 0 false, .poll 0 false]
+  [.dispatch 10, .dispatch 11, .dispatch 12, .poll 0, .poll 0, .poll 0,
+   .abort 1, .ready 2 102, .poll 0, .poll 0]
 
 example :
     let s := run (init none) exHistory
@@ -1105,31 +1091,31 @@ example :
   decide
 
 example :
-    let s := run (init none) (exHistory ++ [.ready 0 100, .clear, .poll 0 false])
+    let s := run (init none) (exHistory ++ [.ready 0 100, .clear, .poll 0])
     s.pending = false ∧ s.version = 2 ∧ s.value = some 100 ∧ s.input = none ∧ s.idle = true ∧
     s.log = [.completed 2 102, .cleared, .completed 0 100] := by
   decide
 
-/-- the hypothesis of the partial theorem holds on histories with an abort-before-ready … -/
-example : raceFree (init none) (exHistory ++ [.ready 1 101, .ready 0 100, .poll 0 true]) = true := by decide
-
-/-- … also when a poll finds both available and the abort arm wins (the late result is discarded) -/
+/-- the hypothesis `abortFirst` of `C17_abort_before_ready_never_writes` is reachable, also together
+with a result that arrives before the poll: the late result is discarded -/
 example :
-    let evs : List Event := [.dispatch 1, .abort 0, .ready 0 7, .poll 0 false]
-    raceFree (init none) evs = true ∧ (run (init none) evs).value = none ∧
-    (run (init none) evs).version = 0 ∧ (run (init none) evs).pending = false := by decide
+    let s := run (init none) [.dispatch 1, .abort 0, .ready 0 7, .poll 0]
+    s.tasks.map (·.abortFirst) = [true] ∧ s.tasks.map (·.outcome) = [.aborted] ∧
+    s.value = none ∧ s.version = 0 ∧ s.pending = false := by decide
 
-/-- … and fails exactly on the witness -/
-example : raceFree (init none) [.dispatch 1, .abort 0, .ready 0 7, .poll 0 true] = false := by decide
-
-/-- a result that was available before `abort()` may legitimately be written (not `abortFirst`) -/
+/-- an abort that arrives after the result but before the poll also wins (not `abortFirst`) … -/
 example :
-    let s := run (init (some 5)) [.dispatch 1, .ready 0 7, .abort 0, .poll 0 true]
-    abortRaceLost s = false ∧ s.value = some 7 ∧ s.version = 1 := by decide
+    let s := run (init (some 5)) [.dispatch 1, .ready 0 7, .abort 0, .poll 0]
+    s.tasks.map (·.abortFirst) = [false] ∧ s.value = some 5 ∧ s.version = 0 ∧ s.pending = false := by decide
+
+/-- … while a result that was already written stays written when `abort()` comes later -/
+example :
+    let s := run (init (some 5)) [.dispatch 1, .ready 0 7, .poll 0, .abort 0, .poll 0]
+    s.value = some 7 ∧ s.version = 1 ∧ s.pending = false := by decide
 
 /-- a dropped handle disables the abort arm: the dispatch completes normally -/
 example :
-    let s := run (init none) [.dispatch 1, .dropHandle 0, .abort 0, .poll 0 false, .ready 0 7, .poll 0 false]
+    let s := run (init none) [.dispatch 1, .dropHandle 0, .abort 0, .poll 0, .ready 0 7, .poll 0]
     s.value = some 7 ∧ s.version = 1 ∧ s.pending = false := by decide
 
 /-- multi-action: three overlapping submissions, one canceled before it resolves, one `dispatch_sync` -/
